@@ -28,8 +28,8 @@ impl Check for C01 {
 
     fn runs(&self, tier: Tier) -> u64 {
         match tier {
-            Tier::Quick => 150_000,
-            Tier::Thorough => 12_000_000,
+            Tier::Quick => 600_000,
+            Tier::Thorough => 30_000_000,
         }
     }
 
